@@ -38,6 +38,14 @@ func (t *transcript) emit(cmd, out string) {
 
 func (t *transcript) comment(s string) { fmt.Fprintf(t.w, "# %s\n", s) }
 
+// begin announces a call before it is made and pushes everything written so far out of the process: if the call
+// never returns (a cycle in a damaged structure) or takes the process down (a fault the runtime does not let anyone
+// recover from), the transcript on disk ends with the call that did it.
+func (t *transcript) begin(cmd string) {
+	fmt.Fprintf(t.w, "# begin %s\n", cmd)
+	t.w.Flush()
+}
+
 func safely(f func() string) (out string) {
 	defer func() {
 		if r := recover(); r != nil {
@@ -117,6 +125,7 @@ func (s *session) exec(op string, id int, args ...string) string {
 	tl := t.TranscriptLit
 	var cmd, out string
 	readonly := false
+	s.tr.begin(fmt.Sprintf("%s %d %s", op, id, strings.Join(args, " ")))
 	switch op {
 	case "ins":
 		v, _ := strconv.Atoi(args[1])
@@ -1861,6 +1870,14 @@ func runMultiMode(cfg treeRunCfg, tr *transcript) {
 		for i := 0; i < n; i++ {
 			fam := pick(r, cfg.families)
 			hc := pick(r, histCfgsFor(fam, r))
+			if fam == "coll" && r.Intn(3) != 0 {
+				for _, c := range histCfgsFor(fam, r) {
+					if c.collName == pick(r, []string{"numeric", "sv", "de"}) {
+						hc = c
+						break
+					}
+				}
+			}
 			hc.ops = cfg.ops
 			hc.profile = "mixed"
 			hc.dumpAll = cfg.dumpAll
@@ -1870,8 +1887,18 @@ func runMultiMode(cfg treeRunCfg, tr *transcript) {
 			h := &history{s: s, r: r, id: nextID, cfg: hc, present: map[string]string{}, feat: map[string]bool{}}
 			// wide fan-out universes so that nodes of every class are released and re-used
 			h.uni = []universe{pick(r, hc.unis)}
+			if fam == "coll" && r.Intn(2) == 0 {
+				// strings whose place depends on the tree's own collator (a tree that forgets its options shows here)
+				h.uni = []universe{hc.unis[0]}
+			}
 			hs = append(hs, h)
 			tr.comment(fmt.Sprintf("multi group=%d tree=%d spec=%q universe=%s", g, nextID, hc.spec, h.uni[0].name))
+			// every tree has been emptied by deletions once before its history starts: from then on it must behave
+			// like a new one (with the options it was built with)
+			h.singletonDance()
+			for len(h.order) > 0 {
+				h.remove(h.order[0])
+			}
 		}
 		// interleave: each step picks a tree and performs a short burst in one direction
 		for step := 0; step < cfg.ops; step++ {
